@@ -103,7 +103,7 @@ class CaseGen:
     def op_ctor(self):
         r = self.r
         c = r.weighted([('from_str', 10), ('static', 5), ('with_capacity', 4), ('new', 2), ('char', 1), ('bool', 1),
-                        ('collect_chars', 2), ('collect_strs', 1), ('display', 2)])
+                        ('collect_chars', 2), ('collect_strs', 1), ('display', 2), ('int', 2)])
         if c == 'from_str':
             t = gen_text(r)
             route = r.pick(['from', 'from', 'string', 'refstring', 'box', 'cowb', 'cowo', 'parse', 'tls', 'utf8', 'collect1'])
@@ -115,6 +115,16 @@ class CaseGen:
             n = r.pick([0, 1, 15, 16, 17, 18, 30, 40, 64, 100, 1000]) if not r.chance(1, 6) else r.pick(SIZES_BIG)
             self.emit(self.mode(), 'with_capacity', n)
             self.slots.append(Slot(b'', 'H' if 16 < n < (1 << 20) else 'I') if n < (1 << 20) else None)
+        elif c == 'int':
+            ty = r.pick(['i8', 'u8', 'i16', 'u16', 'i32', 'u32', 'i64', 'u64', 'isize', 'usize', 'nz_i64', 'nz_u64', 'nz_i32'])
+            base = ty[3:] if ty.startswith('nz_') else ty
+            bits = {'i8': 8, 'u8': 8, 'i16': 16, 'u16': 16, 'i32': 32, 'u32': 32}.get(base, 64)
+            lo, hi = (-(1 << (bits - 1)), (1 << (bits - 1)) - 1) if base[0] == 'i' else (0, (1 << bits) - 1)
+            k = r.below(20)
+            v = r.pick([10 ** k, 10 ** k - 1, -(10 ** k), -(10 ** k) + 1, -(10 ** k - 1), lo, hi, r.next() % (hi - lo + 1) + lo, 1, -1])
+            v = max(lo, min(hi, v))
+            if ty.startswith('nz_') and v == 0: v = 1
+            self.emit(self.mode(), 'from_int', ty, v); t = str(v).encode(); self.slots.append(Slot(t, self.kind_for(len(t))))
         elif c == 'char':
             cp = r.pick(ALLCH); self.emit('plain', 'from_char', r.pick(['from', 'tls']), cp); self.slots.append(Slot(enc(cp), 'I'))
         elif c == 'bool':
